@@ -177,4 +177,8 @@ def remove_duplicates(cont):
     x = np.resize(cont, (len(cont) + 1, 2))
     selection = np.ones(len(x), dtype=bool)
     selection[1:] = ~np.prod((x[1:] == x[:-1]), axis=1, dtype=bool)
-    return x[selection][:-1]
+    unique = x[selection]
+    if len(unique) > 1:
+        # remove the closing point (the copy of the first point)
+        unique = unique[:-1]
+    return unique
